@@ -68,6 +68,11 @@ theorem fact_apply_max_counts_taken_members : Facts.C12.applyMaxCountsTakenMembe
 /-- `resolveCredential` returns the credential only when there is no `path_nested` left (no early return above that test) -/
 theorem fact_resolve_evaluates_path_nested_first : Facts.C12.resolveEvaluatesPathNestedBeforeReturningCredential = true := by decide
 
+/-- `parseJSONArrayEnvelope`: the entry type switch has exactly the cases `string` and `default`, and the loop has no
+    `continue` (no entry is skipped) -/
+theorem fact_array_envelope_skips_no_entry :
+    Facts.C12.arrayEnvelopeSwitchCases = ["string", "default"] ∧ Facts.C12.arrayEnvelopeLoopHasContinue = false := by decide
+
 /-- the configuration the model is run with is the repaired one -/
 theorem fact_cfg_fixed : Facts.C12.cfg = Cfg.fixed := by decide
 
@@ -303,6 +308,31 @@ theorem path_nested_always_evaluated (decode : Decoder) (lv nx : Level) (rest : 
     resolveLevels decode (nx :: rest) lv v = resolveLevels decode rest nx (match d.asMap with | some m => m | none => .null) := by
   rw [resolveLevels, h]
   rfl
+
+/-- array envelopes: parsing is total and position preserving. If the envelope parses, EVERY presented entry is a
+    presentation and the i-th parsed presentation (its `asInterface` element, its credentials) comes from the i-th presented
+    entry — so a path `$[i]` of a descriptor map is evaluated on the entry the holder presented at position i; an entry that
+    is not a presentation (null, number, boolean, array, empty string/object, ...) at ANY position makes the envelope an error -/
+theorem array_envelope_positions_preserved (parseVP : J → Option EntryVP) (l : List J) (r : List EntryVP)
+    (h : parseArrayEnvelope parseVP l = .ok r) :
+    l.map parseVP = r.map some ∧ (envelopeOfEntries r).presentations.length = l.length ∧
+    (envelopeOfEntries r).asInterface = .arr (r.map (·.asInterface)) := by
+  have hs := parseArrayEnvelope_spec parseVP l r h
+  refine ⟨hs, ?_, rfl⟩
+  have := congrArg List.length hs
+  simp only [List.length_map] at this
+  simp [envelopeOfEntries, this]
+
+theorem array_envelope_junk_entry_rejected (parseVP : J → Option EntryVP) (l : List J) (e : J) (he : e ∈ l)
+    (hjunk : parseVP e = none) (r : List EntryVP) : parseArrayEnvelope parseVP l ≠ .ok r :=
+  parseArrayEnvelope_junk parseVP l e he hjunk r
+
+theorem pe_total_parse_array_envelope (parseVP : J → Option EntryVP) (l : List J) (site : String) :
+    parseArrayEnvelope parseVP l ≠ .panic site :=
+  isPanic_false_of (parseArrayEnvelope_noPanic parseVP l) site
+
+example : (parseArrayEnvelope (fun e => match e with | .str _ => some {} | _ => none) [.null, .str "vp"]).cls = "err:envelope" := by decide
+example : (parseArrayEnvelope (fun e => match e with | .str _ => some {} | _ => none) [.str "a", .str "vp"]).isOk = true := by decide
 
 /-- corollary (surplus): a descriptor map with two entries for one input descriptor is rejected -/
 theorem surplus_entry_rejected (re : Regex) (decode : Decoder) (pd : PD) (env : Envelope) (sub : List Mapping)
